@@ -36,6 +36,13 @@ BAND = 1e-9
 #: |normalised in-circle determinant| below which a pair of adjacent triangles is
 #: "ambiguous" (either diagonal accepted)
 EPS_CIRC = 1e-9
+#: events closer than EDGE_BAND to an edge of their triangle may be located in either
+#: adjacent triangle by scipy's walk (its tolerance is 100 eps in barycentric units)
+EDGE_BAND = 1e-12
+#: triangles flatter than this (height, normalised units) are "slivers": scipy's
+#: barycentric transform is ill-conditioned there (errors ~ eps / height) and points ON
+#: their edges are sometimes not located at all (NaN) - a property of the trusted library
+SLIVER_H = 1e-6
 #: a position error of this size (normalised coordinates) is never judged; it enters the
 #: value tolerance through the gradient of the local interpolant (sliver triangles of
 #: height 1e-8 exist in the shipped tables)
@@ -314,6 +321,11 @@ class LutRef:
         for k in range(3):
             np.maximum.at(g, self.simp[:, k], fin)
         self.node_grad1 = g
+        hmin = np.full(len(self.nodes), np.inf)
+        th = np.where(self.degenerate, 0.0, np.nanmin(self.heights, axis=1))
+        for k in range(3):
+            np.minimum.at(hmin, self.simp[:, k], th)
+        self.node_hmin = hmin
 
     # ................................................................ queries
     def hull_distance(self, pts):
@@ -387,6 +399,8 @@ class LutRef:
         grad1 = np.zeros(n)
         located_by = np.zeros(n, dtype=np.int8)   # 1 hint, 2 brute force
         edge_dist = np.full(n, np.nan)            # distance to the nearest edge of `tri`
+        grad1_nbhd = np.zeros(n)                  # max |grad|_1 over triangles touching `tri`
+        hmin_nbhd = np.full(n, np.inf)            # min height over triangles touching `tri`
         if fin.any():
             idx = np.nonzero(fin)[0]
             hd[idx] = self.hull_distance(pts[idx])
@@ -411,12 +425,14 @@ class LutRef:
                 grad1[have] = self.grad1[tri[have]]
                 edge_dist[have] = (self.bary(tri[have], pts[have])
                                    * self.heights[tri[have]]).min(axis=1)
+                grad1_nbhd[have] = self.node_grad1[self.simp[tri[have]]].max(axis=1)
+                hmin_nbhd[have] = self.node_hmin[self.simp[tri[have]]].min(axis=1)
         cls = np.where(~fin, 3, np.where(hd > BAND, 2, np.where(hd < -BAND, 0, 1)))
         amb = np.zeros(n, dtype=bool)
         amb[tri >= 0] = self.ambiguous[tri[tri >= 0]]
         return {"ref": ref, "tri": tri, "hd": hd, "grad1": grad1, "cls": cls,
                 "ambiguous": amb, "pts": pts, "located_by": located_by,
-                "edge_dist": edge_dist}
+                "edge_dist": edge_dist, "grad1_nbhd": grad1_nbhd, "hmin_nbhd": hmin_nbhd}
 
     # ................................................................. judge
     def judge(self, xn, yn, got, scale, rtol=RTOL):
@@ -426,6 +442,7 @@ class LutRef:
           0 ok value, 1 ok NaN (outside), 2 band: NaN-ness not judged,
           3 ok via neighbouring triangle (edge/vertex), 4 ok via flipped diagonal,
           5 model has no triangle (not judged),
+          7 NaN on an edge of a sliver triangle (scipy point location, not judged),
           -1 value mismatch, -2 NaN inside the support, -3 number outside the support
         """
         ev = self.evaluate(xn, yn)
@@ -445,6 +462,9 @@ class LutRef:
         todo = (~out) & ~band_nan
         inside_nan = todo & isnan
         verdict[inside_nan] = -2
+        with np.errstate(invalid="ignore"):
+            sliver_edge = inside_nan & (ev["edge_dist"] < EDGE_BAND) & (ev["hmin_nbhd"] < SLIVER_H)
+        verdict[sliver_edge] = 7
         nomodel = todo & ~isnan & (ev["tri"] < 0)
         verdict[nomodel] = 5
         cmp_ = todo & ~isnan & (ev["tri"] >= 0)
